@@ -411,7 +411,8 @@ def structures(draw, max_res=40, min_res=2, allow_ball=True, allow_hetero=True, 
                     cid = cand
                     break
         ids.append(cid)
-        scheme = draw(st.sampled_from(["keep", "keep", "seq", "gaps", "icode"])) if allow_relabel else "keep"
+        scheme = draw(st.sampled_from(["keep"] * 5 + ["seq"] * 3 + ["gaps"] * 3 + ["icode"])) if allow_relabel \
+            else "keep"
         if scheme == "icode" and not allow_icode:
             scheme = "seq"
         if scheme != "keep":
@@ -439,19 +440,22 @@ def structures(draw, max_res=40, min_res=2, allow_ball=True, allow_hetero=True, 
         for res in c:
             for a in res:
                 a.chain = cid
-    # residue identifiers must be unique: chains that share an id get disjoint numbering
+    # residue identifiers must be unique and inside the 4-column field: a chain that collides with an earlier one (or
+    # leaves the field) is renumbered sequentially from the first free start
     seen = set()
     for ci, c in enumerate(chains):
-        for res in c:
-            key = (res[0].chain, res[0].resnum, res[0].icode)
-            if key in seen:
-                # shift this whole chain beyond everything seen with that chain id
-                mx = max([k[1] for k in seen if k[0] == res[0].chain] + [0])
-                base = mx + 5 - min(r[0].resnum for r in c)
-                for r in c:
-                    for a in r:
-                        a.resnum += base
-                break
+        keys = [(res[0].chain, res[0].resnum, res[0].icode) for res in c]
+        bad = len(set(keys)) != len(keys) or any(k in seen for k in keys) or \
+            any(not -999 <= k[1] <= 9999 for k in keys)
+        if bad:
+            cid = c[0][0].chain
+            for start in (1, 2001, 4001, 6001, 8001, -900, 1001, 3001, 5001, 7001):
+                cand = [(cid, start + ri, " ") for ri in range(len(c))]
+                if not any(k in seen for k in cand) and start + len(c) <= 9999:
+                    for ri, res in enumerate(c):
+                        for a in res:
+                            a.resnum, a.icode = start + ri, " "
+                    break
         for res in c:
             seen.add((res[0].chain, res[0].resnum, res[0].icode))
     if len(chains) > 1:
